@@ -25,11 +25,14 @@ type Node struct {
 	LimitAfterOp int `json:"limit_after_op,omitempty"`
 	FailWrite int    `json:"fail_write,omitempty"` // trace: the n-th Write call of the writer fails (0 = never)
 	Subs      int    `json:"subs,omitempty"`       // multi: number of substores
+	// TraceCtx: the trace store is built with a tracing context (a live map the owner keeps updating: op "tctx")
+	TraceCtx bool `json:"trace_ctx,omitempty"`
 }
 
 type Op struct {
-	K     string  `json:"k"` // get has set del iopen inext ikey ival ivalid iclose write
+	K     string  `json:"k"` // get has set del iopen inext ikey ival ivalid iclose write consume tctx
 	N     int     `json:"n"`
+	Amount uint64 `json:"amount,omitempty"` // consume: gas charged on the node's meter directly
 	Sub   int     `json:"sub,omitempty"`
 	Key   *string `json:"key,omitempty"` // hex
 	Val   *string `json:"val,omitempty"`
